@@ -11,12 +11,12 @@ RULE = ("scripted-party worlds: schedules of length 1..horizon+k over arbitrary 
         "containers / scalar types, shuffled key order, max_recompute in {None,1,k}; non-trivial = >=2 overlapping "
         "schedules of different length and >=1 omitted station; distinct = per-period history signature + schedule shapes")
 PROBES = ["overlap_diff_len", "omitted_station", "empty_schedule", "beyond_horizon", "beyond_horizon_last_period",
-          "rejected_unknown_station", "rejected_ragged", "resumed", "reversed_pair", "resume_json_with_pending_schedule"]
+          "rejected_unknown_station", "rejected_ragged", "resumed", "reversed_pair", "resume_json_with_pending_schedule", "second_life"]
 FAULT_DIMENSION = "beyond_horizon schedules at any call incl. the last period; malformed schedules (must be rejected atomically); crash + rerun or JSON save/load (pending multi-period schedules must survive)"
 ASSUMPTIONS = ["pilot values in scripts are valid for each EVSE class (C13 covers invalid ones)",
                "EVSEs with a continuous range excluding 0 are not generated (an uncovered period would be invalid)"]
 
-PROFILE = world.profile(party={"scripted": 1}, faults={"crash": 0.3, "beyond_horizon": 0.5, "malformed": 0.4},
+PROFILE = world.profile(second_life=0.15, party={"scripted": 1}, faults={"crash": 0.3, "beyond_horizon": 0.5, "malformed": 0.4},
                         resume_modes=["rerun", "rerun", "json_str", "json_buf"], max_recompute=[None, None, 1, 2, 3, 5], extra_recompute=0.6)
 
 
@@ -69,6 +69,7 @@ def check(sc):
     lt = world.last_event_time(sc)
     out.probe("beyond_horizon_last_period", sum(1 for c in bh if c["t"] == lt))
     out.probe("resumed", len(tr.resumes))
+    out.probe("second_life", tr.fault_counts.get("second_life", 0))
     out.probe("resume_json_with_pending_schedule", sum(1 for r in tr.resumes if r["mode"] != "rerun" and any(a <= r["t"] < b for a, b, _, _ in spans)))
     for r in tr.rejections:
         out.probe("rejected_" + r["how"])
